@@ -25,7 +25,7 @@ ObsOk(p) ==
   /\ \A i \in 1..Len(p.pay) :
         /\ p.pay[i][1] = pay'[i].st
         /\ p.pay[i][4] = pay'[i].drops
-        /\ (p.pay[i][2] = -1 \/ pay'[i].st # "live" \/ (p.pay[i][2] = pay'[i].val /\ p.pay[i][3] = pay'[i].ival))
+        /\ (p.pay[i][2] = -1 \/ pay'[i].st # "live" \/ (p.pay[i][2] = pay'[i].val /\ p.pay[i][3] = pay'[i].ival /\ p.pay[i][5] = pay'[i].ival2))
   /\ \A x \in Handle : /\ p.h[x].kind = h'[x].kind /\ p.h[x].t = h'[x].t /\ p.h[x].tr = h'[x].tr
                        /\ p.h[x].req = h'[x].req /\ p.h[x].inst = h'[x].inst /\ p.h[x].ctx = h'[x].ctx
   /\ \A c \in Ctx : p.cnt[c] = cnt'[c] /\ p.env[c] = envHolds'[c] /\ p.crel[c] = crel'[c]
